@@ -248,8 +248,9 @@ type execCtl struct {
 	done  func(deadlock bool, choices []int)
 }
 
-func explore(newExec func() *execCtl, maxSchedules int, maxSteps int) (nSched int, truncated bool) {
-	var prefix []int
+// exploreFrom is explore resumable across processes: it starts at the schedule identified by `prefix`
+// (nil = the first one) and returns the prefix of the next unexplored schedule (nil when the space is exhausted).
+func exploreFrom(newExec func() *execCtl, prefix []int, maxSchedules int, maxSteps int) (nSched int, next []int, truncated bool) {
 	for {
 		ex := newExec()
 		s := ex.s
@@ -308,11 +309,16 @@ func explore(newExec func() *execCtl, maxSchedules int, maxSteps int) (nSched in
 			i--
 		}
 		if i < 0 {
-			return nSched, truncated
+			return nSched, nil, truncated
 		}
 		prefix = append(append([]int{}, choices[:i]...), choices[i]+1)
 		if nSched >= maxSchedules {
-			return nSched, true
+			return nSched, prefix, truncated
 		}
 	}
+}
+
+func explore(newExec func() *execCtl, maxSchedules int, maxSteps int) (nSched int, truncated bool) {
+	n, next, tr := exploreFrom(newExec, nil, maxSchedules, maxSteps)
+	return n, tr || next != nil
 }
